@@ -70,6 +70,10 @@ func (c09) Gen(dt *drv.T, c *Ctx) any {
 		p.Body = append(p.Body, &Stmt{Op: "if", Cond: &Cond{Draw: 0, Op: "mod", M: int64(m), C: int64(drv.IntRange(0, m-1).Draw(dt, "failres"))},
 			Body: []*Stmt{genSig(dt, allSigKinds)}})
 	}
+	if cs.PreFiles > 0 && chance(dt, "flakyfile", 25) {
+		// falsified on its very first execution only (the replay of the first pre-seeded file), passes afterwards
+		p.Body = append(p.Body, &Stmt{Op: "ifinv", N: 0, Body: []*Stmt{genSig(dt, allSigKinds)}})
+	}
 	cs.Prog = p
 	return cs
 }
@@ -149,7 +153,18 @@ func (c09) Run(c *Ctx, csAny any) Outcome {
 	}
 	for i := 0; i < k && i < len(x.Log); i++ {
 		if x.Log[i].Falsified {
+			// the run has to end here: failure, FailNow, at most the reproduction and the final replay afterwards,
+			// and no fresh random test case
 			out.Classes = append(out.Classes, "prefile-falsified")
+			out.NonTrivial = true
+			if !obs.Failed || !obs.FailNow {
+				out.Viol = violf("C09:failfile-falsification-ignored", "the test case replayed from pre-seeded fail file %d falsified the property, but the test was not failed and stopped (failed=%v, FailNow=%v, report %q)", i, obs.Failed, obs.FailNow, rep.Kind)
+				return out
+			}
+			if len(x.Log) > i+3 || obs.CountLog("[rapid] test #") > 0 {
+				out.Viol = violf("C09:fresh-case-after-failure", "the test case replayed from pre-seeded fail file %d falsified the property, but %d more invocations followed", i, len(x.Log)-i-1)
+				return out
+			}
 			return out
 		}
 	}
